@@ -17,6 +17,7 @@ type batchStats struct {
 	Signatures   map[string]int `json:"distinct_signatures"`
 	Samples      []any          `json:"samples"`
 	Inconsistent []any          `json:"direct_violations"`
+	MethodRuns   int            `json:"resource_method_capability_runs"`
 }
 
 func newBatchStats() *batchStats {
@@ -55,6 +56,9 @@ func (st *batchStats) add(b *Batch, obs *BatchObs) {
 		st.Classes[r.Class]++
 		sig += r.Class + ","
 		// direct checks of the property on the implementation's answer
+		if r.FxBad != "" {
+			st.Inconsistent = append(st.Inconsistent, map[string]any{"batch": b.ID, "invocation": r.Inv, "what": "the receipt's effects are not the ones the handler returned: " + r.FxBad})
+		}
 		if r.Found && r.Direct != "" && r.Direct != r.Class {
 			st.Inconsistent = append(st.Inconsistent, map[string]any{"batch": b.ID, "invocation": r.Inv, "what": "ServerView.Run answers differently from the batch path", "batch_class": r.Class, "run_class": r.Direct})
 		}
@@ -92,6 +96,9 @@ func init() {
 			labels[i] = fmt.Sprintf("batch of %d, handlers %v", len(b.Invs), b.Handlers)
 			cases = append(cases, b.Coq(obs))
 		}
+		md, mruns := c08MethodScenarios(o.seed)
+		st.Inconsistent = append(st.Inconsistent, md...)
+		st.MethodRuns = mruns
 		if err := writeBatchCases(o.out, "cases_C08", cases, 16); err != nil {
 			return err
 		}
